@@ -9,16 +9,18 @@ import random
 
 from .. import common, identlib
 from ..gen import cfggen, edits
-from ..translate import hashflags, hashsrc
+from ..translate import argflags, hashflags, hashsrc
 
 PROP = "C02"
-MODULES = ["XpmVerif.Properties.C02", "XpmVerif.Properties.HashSrc"]
+MODULES = ["XpmVerif.Properties.C02", "XpmVerif.Properties.C02Decl", "XpmVerif.Properties.C02Env", "XpmVerif.Properties.C02Inherit", "XpmVerif.Proofs.ArgDecl", "XpmVerif.Properties.HashSrc"]
 
 
 def prove(ctx):
     msgs = [hashflags.generate(common.REPO, common.LEAN, probe=identlib.loop_flag_probe(ctx)), hashsrc.generate(common.REPO, common.LEAN)]
     ctx.notes.append(f"translator(hashsrc): {msgs[1][1]}")
     ctx.count("translator", "hashsrc:" + ("translated" if msgs[1][1].startswith("translated") else "fallback"))
+    msgs.append(argflags.generate(common.REPO, common.LEAN, probe=identlib.inherit_rule_probe(ctx)))   # Generated/ArgFlags.lean: the driver derives the argument flags with it
+    ctx.notes.append(f"translator(argflags): {msgs[-1][1]}")
     common.check_proofs(ctx, MODULES, translate_msgs=msgs)
 
 
@@ -33,7 +35,9 @@ def id_steps(g, name):
 def gen(ctx, rng, nlibs, per, tag):
     libs, cases = [], []
     for li in range(nlibs):
-        lib = cfggen.gen_library(rng, f"{tag}_{ctx.seed}_{li}", cfg_defaults=common.CFG_DEFAULTS)
+        # multiple inheritance (diamonds / joins whose bases re-declare an inherited parameter): always in the first library of a
+        # run, in ~18 % of the others
+        lib = cfggen.gen_library(rng, f"{tag}_{ctx.seed}_{li}", cfg_defaults=common.CFG_DEFAULTS, multi=True if li == 0 else "some")
         libs.append(lib)
         for _ in range(per):
             g = cfggen.gen_graph(rng, lib, max_nodes=rng.choice([3, 6, 10]))
@@ -75,7 +79,7 @@ def class_edit_cases(ctx, rng, nlibs, per):
     (same package name and type identifiers: run in separate worker processes)"""
     libs, libs2, cases, infos = [], [], [], []
     for li in range(nlibs):
-        lib = cfggen.gen_library(rng, f"c02k_{ctx.seed}_{li}", cfg_defaults=common.CFG_DEFAULTS)
+        lib = cfggen.gen_library(rng, f"c02k_{ctx.seed}_{li}", cfg_defaults=common.CFG_DEFAULTS, multi=True if li == 0 else "some")
         graphs = [cfggen.gen_graph(rng, lib, max_nodes=rng.choice([3, 6, 10])) for _ in range(per)]
         used = {nd["cls"] for g in graphs for nd in g["nodes"]}
         lib2, info = edits.class_edit(rng, lib, prefer=used)
@@ -91,8 +95,56 @@ def class_edit_cases(ctx, rng, nlibs, per):
     return libs, libs2, cases
 
 
+def declaration_forms():
+    decls = []
+    for kind in ("param", "meta", "option", "constant", "pathgen"):
+        for ty in (("path",) if kind == "pathgen" else ("int", "str", "path")):
+            for optional in (False, True):
+                for attr in (None, "value", "fieldValue", "fieldFactory", "fieldEmpty"):
+                    decls.append({"name": "x", "decl": kind, "ty": ty, "optional": optional, "attr": attr})
+    return decls
+
+
+def declaration_monitor(ctx, decls, rec):
+    """implementation only, C02 on the declaration as written: for a Meta/Option declaration and for a Path-typed one two
+    values, for a generated one before / after sealing, for a defaulted one unset / explicitly the default, for an optional
+    one unset / None — one identifier"""
+    for d, src, mons in zip(decls, rec["sources"], rec["monitors"]):
+        for m in mons:
+            ctx.count("declaration_monitor", m["rule"])
+            if m.get("error") or len(set(m["ids"])) != 1:
+                what = m.get("error") or f"identifiers {[i[:12] for i in m['ids']]}"
+                ctx.monitor_fail(f"declaration-variation-changes-identifier:{m['rule']}:{d['decl']}:{d['ty']}",
+                                 f"`{src.splitlines()[-1].strip()}`: the instances {['D(' + v + ')' if v != 'seal' else 'after seal' for v in m['variants']]} do not share one identifier: {what}",
+                                 {"declaration": d, "source": src, "rule": m["rule"], "variants": m["variants"]})
+                return
+
+
+def declaration_cases(ctx, monitor_only=False):
+    """every declaration form of the model (annotation x type head x Optional x what stands right of `=`), one real class each:
+    the flags `ArgDecl.mkArg` derives — or that it rejects the declaration — against the real `Argument` / the real exception.
+    Exhaustive over the forms (130), the same for every seed."""
+    decls = declaration_forms()
+    rec = identlib.run_worker({"pkg": f"xvdecl_{ctx.seed}", "decls": decls}, ctx.tmpdir(), "decl", None, "xv.impl.decl_worker")
+    declaration_monitor(ctx, decls, rec)
+    if monitor_only:
+        return
+    try:
+        out = common.run_driver("Ident", [rec["line"]])[0]
+    except Exception as e:
+        ctx.disagree({"driver": "Ident", "what": "declaration forms"}, None, None, f"model driver failed: {e}")
+        return
+    for d, src, m, im in zip(decls, rec["sources"], out.get("flags", []), rec["impl"]["flags"]):
+        ctx.case({"declaration": d}, d["attr"] is not None or d["optional"] or d["decl"] != "param")
+        ctx.count("declaration_form", f"{d['decl']}:{'accepted' if im != ['rejected'] else 'rejected'}")
+        ctx.traces_validated += 1
+        if m != im:
+            ctx.disagree({"declaration": d, "source": src}, m, im, "flags / rejection derived from the declaration differ from the real class")
+
+
 def correspond(ctx):
     rng = ctx.rng
+    declaration_cases(ctx)
     ctx.rule = ("pairs (graph, graph after 1-3 signature-neutral edits: explicit default, unset optional, Meta/Option value, Path value, meta=True member in "
                 "list/dict, tag, token dependency, change inside a meta=True configuration) and (library, library + defaulted/Meta/generated parameter); "
                 "non-trivial = edit at a node other than the root or inside a container; distinct = case hash")
@@ -109,7 +161,14 @@ def correspond(ctx):
         monitor(ctx, case, rec)
         good.append((case, rec))
     if len(good) < len(cases) * 0.9:
-        raise RuntimeError(f"too many unbuildable cases: {next(r['error'] for r in res if r['error'])}")
+        first = next(r['error'] for r in res if r['error'])
+        if getattr(ctx, "proof", None) is not None and ctx.proof.failures:
+            # the tree under test already fails a proof / source obligation: cases the real code cannot evaluate are then
+            # an observation about that tree (e.g. a Path value reaching the hash), not a harness failure — the verdict
+            # comes from the broken obligation and the failing-input search
+            ctx.notes.append(f"{len(cases) - len(good)} of {len(cases)} cases raise in the real code: {first[:200]}")
+        else:
+            raise RuntimeError(f"too many unbuildable cases: {first}")
     # class edits
     klibs, klibs2, kcases = class_edit_cases(ctx, rng, ctx.scale(12, 40), ctx.scale(6, 40))
     payload = [{"lib": c["lib"], "steps": c["steps"]} for c in kcases]
@@ -139,6 +198,9 @@ def correspond(ctx):
         if len(set(ids.values()) | {rec["unsubmitted"]}) != 1:
             ctx.monitor_fail("environment-changes-identifier", f"identifier depends on launcher / workspace / run mode: {ids}, unsubmitted {rec['unsubmitted']}",
                              {"graph": case["graph"], "identifiers": ids})
+        if rec.get("lines"):
+            # the three submissions through the model, launcher / workspace / run mode being inputs of it (Model/IdentEnv.lean)
+            good.append((case, rec))
     # Meta / Option values that were loaded from a saved definition (state dict, save/load) instead of built in Python
     mcases = []
     for _ in range(ctx.scale(12, 120)):
@@ -170,6 +232,7 @@ def correspond(ctx):
 
 def search(ctx):
     rng = random.Random(f"search-{ctx.seed}")
+    declaration_cases(ctx, monitor_only=True)
     libs, cases = gen(ctx, rng, ctx.scale(8, 30), 100, "c02s")
     res = identlib.run_cases(ctx, libs, [{"lib": c["lib"], "steps": c["steps"]} for c in cases], shards=12)[None]
     for case, rec in zip(cases, res):
